@@ -230,6 +230,7 @@ func corruptHarness(rc *RunCtx) {
 	var canaryErr, warmErr error
 	var closedCause error
 	closedSeen := false
+	hostilePrefix := false
 	garbleNext := false
 	g := &e2eGen{rc: rc, env: env}
 
@@ -262,6 +263,7 @@ func corruptHarness(rc *RunCtx) {
 		case "adapter-client":
 			bad, w := corruptFrame(rc, repFrame, true)
 			what = w
+			hostilePrefix = len(bad) >= 12 && binary.BigEndian.Uint32(bad) >= 0x7fffffff
 			ch := env.tr.Closed()
 			env.streams[0].PeerWrite(bad)
 			if tp.Intn("cfg", 2) == 0 {
@@ -368,9 +370,12 @@ func corruptHarness(rc *RunCtx) {
 		if canaryErr != nil {
 			rc.Violate("C05", "canary-failed", key, fmt.Sprintf("%s: a well-formed call afterwards failed: %v", where, canaryErr))
 		}
-		if entry == "adapter-client" && closedSeen && closedCause == nil && strings.Contains(what, "size field") {
-			// closing is allowed, but then a cause must be reported (peer EOF excepted)
-			_ = closedCause
+		_ = closedCause
+		if entry == "adapter-client" && hostilePrefix && !closedSeen {
+			// a frame announcing 2 GiB or more can never be received, and skipping it is impossible on a stream
+			// (nobody knows where the next frame starts): the only sound reaction is to give the connection up
+			// and say so. A transport that stays "open" here feeds on garbage and swallows every later response.
+			rc.Violate("C05", "desynchronised-stream-kept-open", key, where+": the frame size prefix announced >= 2^31-1 bytes and more bytes followed, yet the transport neither closed nor reported a cause")
 		}
 	}
 	s.Shutdown()
